@@ -24,6 +24,7 @@ type packVariant struct {
 	// Compile returns the output program text, or ok=false if esbuild reported errors (then the variant is skipped for this pack)
 	Compile func(src string) (out string, errs []string)
 	Kind    string // script | module
+	SigTag  string // appended to violation signatures as "@tag" (for findings that depend on one option)
 }
 
 func packSource(cases []packCase) string {
@@ -84,10 +85,10 @@ func runPacks(r *Run, cases []packCase, packSize int, variants []packVariant, si
 	parallel(len(packs), pool.Size(), func(pi int) {
 		pk := packs[pi]
 		src := packSource(pk)
-		refSrc := src
 		if refOf != nil {
-			refSrc = refOf(src)
+			src = refOf(src) // wrapper applied to the program itself (input of esbuild and reference alike)
 		}
+		refSrc := src
 		var outs []Prog
 		var used []packVariant
 		for _, v := range variants {
@@ -97,7 +98,11 @@ func runPacks(r *Run, cases []packCase, packSize int, variants []packVariant, si
 				// a whole pack failing to compile is itself suspicious: find the culprit case and report it
 				if len(pk) > 1 {
 					for _, c := range pk {
-						if _, e2 := v.Compile(packSource([]packCase{c})); len(e2) > 0 {
+						one := packSource([]packCase{c})
+						if refOf != nil {
+							one = refOf(one)
+						}
+						if _, e2 := v.Compile(one); len(e2) > 0 {
 							r.Violation(sigPrefix+":compile-error:"+v.Name+":"+c.Sig, fmt.Sprintf("esbuild reports an error for a valid generated case under %s: %s: %s", v.Name, c.Body, e2[0]),
 								map[string]interface{}{"case": c, "variant": v.Name, "errors": e2})
 							break
@@ -139,6 +144,35 @@ func runPacks(r *Run, cases []packCase, packSize int, variants []packVariant, si
 				r.Count("inconclusive_packs", 1)
 				continue
 			}
+			if strings.HasPrefix(cmp.TermB, "syntax") && !strings.HasPrefix(cmp.TermA, "syntax") {
+				// the whole output does not parse: find the case(s) whose own output is invalid
+				found := 0
+				for _, c := range pk {
+					one := packSource([]packCase{c})
+					if refOf != nil {
+						one = refOf(one)
+					}
+					out1, errs1 := used[vi].Compile(one)
+					if len(errs1) > 0 {
+						continue
+					}
+					goal := "script"
+					if used[vi].Kind == "module" {
+						goal = "module"
+					}
+					if pr, err := pool.Parse(out1, goal, 0, "v8"); err == nil && pr.V8 != nil && !pr.V8.OK {
+						found++
+						r.Violation(sigPrefix+":invalid-output:"+c.Sig, fmt.Sprintf("output is not valid JavaScript under %s: %s → %s: %s", used[vi].Name, trunc(c.Body, 200), trunc(out1, 300), pr.V8.Err),
+							map[string]interface{}{"case": c, "variant": used[vi].Name, "input": one, "output": out1, "v8": pr.V8.Err})
+						if found >= 3 {
+							break
+						}
+					}
+				}
+				if found > 0 {
+					continue
+				}
+			}
 			for _, d := range cmp.Diffs {
 				id := strings.Trim(d.Seg, `"`)
 				c, ok := byID[id]
@@ -149,10 +183,10 @@ func runPacks(r *Run, cases []packCase, packSize int, variants []packVariant, si
 				}
 				// confirm alone
 				single := packSource([]packCase{c})
-				singleRef := single
 				if refOf != nil {
-					singleRef = refOf(single)
+					single = refOf(single)
 				}
+				singleRef := single
 				out1, errs1 := used[vi].Compile(single)
 				alone := false
 				var a1, b1 []string
@@ -177,7 +211,11 @@ func runPacks(r *Run, cases []packCase, packSize int, variants []packVariant, si
 				} else {
 					rep["pack_input"] = src
 				}
-				r.Violation(sigPrefix+":"+c.Sig, fmt.Sprintf("behaviour differs under %s: %s  ref=%v out=%v", used[vi].Name, trunc(c.Body, 300), trunc(fmt.Sprint(d.A), 200), trunc(fmt.Sprint(d.B), 200)), rep)
+				sig := sigPrefix + ":" + c.Sig
+				if used[vi].SigTag != "" {
+					sig += "@" + used[vi].SigTag
+				}
+				r.Violation(sig, fmt.Sprintf("behaviour differs under %s: %s  ref=%v out=%v", used[vi].Name, trunc(c.Body, 300), trunc(fmt.Sprint(d.A), 200), trunc(fmt.Sprint(d.B), 200)), rep)
 			}
 		}
 	})
